@@ -122,6 +122,17 @@ def one_statement_kernels(kind, mn, n, binding):
             sigs += [(f"all but operand {i} annotated", [ann(j) if j != i else f"a{j}" for j in range(len(params))]) for i in range(len(params))]
         for form, sig in sigs:
             out.append((form, f"@{kind}\ndef main({', '.join(sig)}):\n{base_call}"))
+        # grid operands annotated with the BARE class (`z: grid.Grid`), the annotation a user writes first
+        bare = {}
+        for i, af in enumerate(f.std_args.values()):
+            t = repr(af.type)
+            if t.startswith("FilledGrid["):
+                bare[i] = "filled.FilledGrid"
+            elif t.startswith("Grid["):
+                bare[i] = "grid.Grid"
+        if bare:
+            sig = [f"a{i}: {bare[i]}" if i in bare else f"a{i}" for i in range(len(params))]
+            out.append(("grid operands annotated with the bare class", f"@{kind}\ndef main({', '.join(sig)}):\n{base_call}"))
     # operands that are constants known when the kernel is defined, and a result that is used
     consts = []
     for i, af in enumerate(f.std_args.values()):
@@ -136,6 +147,12 @@ def one_statement_kernels(kind, mn, n, binding):
         call = f"{mn}.{n}({', '.join(consts + [f'{an}={lit}' for an, lit in req])})"
         body = f"    r = {call}\n    return r\n" if has_result else f"    {call}\n"
         out.append(("constant operands, result used", f"@{kind}\ndef main():\n{body}"))
+        if any(c in ("CONST_SITES", "CONST_INTS", "CONST_FLOATS") for c in consts):
+            # the same with every list operand a plain PYTHON list held by the module (what `list[int]` in a wrapper's signature invites)
+            alt = [{"CONST_SITES": "PY_SITES", "CONST_INTS": "PY_INTS", "CONST_FLOATS": "PY_FLOATS"}.get(c, c) for c in consts]
+            call = f"{mn}.{n}({', '.join(alt + [f'{an}={lit}' for an, lit in req])})"
+            body = f"    r = {call}\n    return r\n" if has_result else f"    {call}\n"
+            out.append(("constant operands (lists as module-level Python lists), result used", f"@{kind}\ndef main():\n{body}"))
         if any(c in ("CONST_GRID", "CONST_FILLED") for c in consts):
             # the same with every grid operand a VIEW of a filled grid held as a constant of the kernel
             alt = [{"CONST_GRID": "CONST_FILLED_VIEW", "CONST_FILLED": "CONST_FILLED_VIEW"}.get(c, c) for c in consts]
@@ -159,7 +176,8 @@ def const_ns():
     from kirin import types
     return {"CONST_GRID": g, "CONST_FILLED": FilledGrid.vacate(g, [(0, 0)]), "CONST_FILLED_VIEW": FilledGrid.vacate(g, [(0, 0), (1, 1)])[0:2, 0:2], "CONST_FULL": FilledGrid.vacate(g, []),
             "CONST_SITES": ilist.IList([(0, 1), (2, 0)], elem=types.Tuple[types.Int, types.Int]),
-            "CONST_INTS": ilist.IList([0, 1], elem=types.Int), "CONST_FLOATS": ilist.IList([0.0, 1.5], elem=types.Float)}
+            "CONST_INTS": ilist.IList([0, 1], elem=types.Int), "CONST_FLOATS": ilist.IList([0.0, 1.5], elem=types.Float),
+            "PY_SITES": [(0, 1), (2, 0)], "PY_INTS": [0, 1], "PY_FLOATS": [0.0, 1.5]}
 
 
 def try_define(src, **extra):
@@ -210,6 +228,43 @@ def definition_histories(ctx):
         else:
             ctx.nt(("definition-history",) + tuple(order))
     ctx.count("move kernels defined in histories (every ordered pair of four block forms over one tweezer kernel, first one defined again)", n)
+    # a definition that is REFUSED (whatever the reason: foreign vocabulary, an operand constant of the wrong kind, a type error) must not
+    # change what the next definitions are answered: after each of them, one accepted kernel of every kind is defined again
+    refused = {
+        "tweezer with a gate": "@tweezer\ndef bad(x: float):\n    gate.global_rz(x)\n",
+        "tweezer with an int where tones are selected": "@tweezer\ndef bad(x: float):\n    action.set_loc(grid.from_positions([x], [0.0]))\n    action.turn_on(0, [0, 1])\n",
+        "tweezer with a tuple constant where tones are selected": "@tweezer\ndef bad(x: float):\n    action.set_loc(grid.from_positions([x], [0.0]))\n    action.turn_off(CONST_TUPLE, action.ALL)\n",
+        "tweezer with a string where a grid is expected": "@tweezer\ndef bad(x: float):\n    action.set_loc(\"nowhere\")\n    action.move(3)\n",
+        "move with a tone switch": "@move\ndef bad(x: float):\n    action.turn_on([0], [0])\n",
+        "move with a call of an undefined name": "@move\ndef bad(x: float):\n    nothing_of_that_name(x)\n",
+        "kernel with a schedule block": "@kernel\ndef bad(x: float):\n    with schedule.parallel():\n        ...\n",
+        "move reversing a number": "@move\ndef bad(x: float):\n    schedule.reverse(3)(x)\n",
+    }
+    good = {
+        "tweezer": "@tweezer\ndef good(a: float, b: float):\n    g = grid.from_positions([a, a + 2.0], [b])\n    action.set_loc(g)\n    action.turn_on(action.ALL, [0])\n    action.move(grid.shift(g, b, a))\n    action.turn_off([0, 1], action.ALL)\n",
+        "move": "@move\ndef good(x: float, y: float):\n" + HISTORY_KERNELS["parallel block of device calls"] + "    gate.global_rz(0.5)\n",
+        "kernel": "@kernel\ndef good(x: float):\n    gate.global_rz(x)\n    gate.top_hat_cz(CONST_GRID)\n",
+    }
+    n2 = 0
+    baseline = {k: try_define(src, kk=kk) for k, src in good.items()}
+    for k, (got, err) in baseline.items():
+        if got != "accepted":
+            ctx.obligation("the accepted kernels of the refusal histories are accepted in the first place", False, f"{k}: {err}")
+            return
+    for bname, bsrc in refused.items():
+        outcome = try_define(bsrc, kk=kk, CONST_TUPLE=(0, 1))
+        ctx.hist("refused definition", f"{bname}: {outcome[0]}")
+        for k, src in good.items():
+            ctx.evaluations += 1
+            n2 += 1
+            got, err = try_define(src, kk=kk)
+            if got != "accepted":
+                ctx.fail({"kind": "acceptance-depends-on-history", "kernel": k, "after": bname}, {"definition_history": [bname, k], "after_refusal": True},
+                         f"@{k} kernel of documented vocabulary is rejected ({err}) when defined after the definition `{bname}` ({outcome[0]}: {outcome[1][:60]})")
+                break
+        else:
+            ctx.nt(("after-refusal", bname))
+    ctx.count("accepted kernels of every kind defined again after each of eight refused / odd definitions", n2)
 
 
 def option_specs():
